@@ -110,6 +110,25 @@ PROPS = {
         "level_note": V0_NOTE,
         "technique": "Lean 4 proof over a deep embedding of declarations + translation validation of the derive macro",
     },
+    "C03": {
+        "families": [{"name": "hist"}],
+        "tags": {"table": "direct", "invent": "direct", "reject-more": "direct", "err-kind": "direct", "cross-consume": "direct",
+                 "dec-panic": "direct", "abs-diff": "indirect"},
+        "rule": "23 histories (the repository's Point history by hand, 22 pseudo-random legal histories of 1-5 steps over all four step kinds, "
+                "any interleaving, fields of 20 types incl. three Option spellings); every version is a real derived Rust type; all (writer, "
+                "reader) pairs x 8 values: outcome (value, error variant, field name) against the documented-outcome table and the operational "
+                "model, top level with following data and embedded between a u16 and a String sibling (embedded + stored version 0 + removal "
+                "excluded, DESIGN 9.1). distinct = distinct (history, w, r, value) accepted by the implementation",
+        "trusted": MODEL_TRUST + ["the generator only emits legal histories (chunk-0 order fixed; removal of the last serialized field of a chunk)"],
+        "partial": "the general equation operational = table for all legal histories is not yet a theorem (needs the chunked-record round trip); "
+                   "evolution on enum variants is exercised in the decl family (same-version) only",
+        "level_text": "Proof (partial): the documented outcome is a function (expectedRead) written without reference to bytes; its clauses — "
+                      "default for an added field, wrap / unwrap for made-optional, absent for a removed optional field, the two named errors, "
+                      "first failing field wins — are theorems; operational = table is proved by kernel evaluation on the repository's own "
+                      "history for the interesting version pairs (tests, labelled as such). On every run the real code is compared with both "
+                      "the table and the operational model on every version pair of every generated history.",
+        "level_note": "Trusted: Lean kernel, model, harness; the table's fidelity to the documentation is by reading.",
+    },
     "C04": {
         "families": [{"name": "ty"}, {"name": "decl"}, {"name": "altform"}],
         "tags": {"bytes": "direct", "enc-err": "direct", "enc-outcome": "direct", "altform": "direct", "container-bytes": "direct",
